@@ -23,7 +23,8 @@ var genLocs = []string{"QUERY", "MUTATION", "SUBSCRIPTION", "FIELD", "FRAGMENT_D
 	"FRAGMENT_SPREAD", "INLINE_FRAGMENT", "VARIABLE_DEFINITION", "SCHEMA",
 	"SCALAR", "OBJECT", "FIELD_DEFINITION", "ARGUMENT_DEFINITION", "INTERFACE",
 	"UNION", "ENUM", "ENUM_VALUE", "INPUT_OBJECT", "INPUT_FIELD_DEFINITION"}
-var genStrClasses = []string{"s_plain", "s_empty", "s_quote", "s_nl", "s_uni", "s_ctl"}
+var genStrClasses = []string{"s_plain", "s_empty", "s_quote", "s_nl", "s_uni", "s_ctl",
+	"sc_trail", "sc_tabend", "sc_lead", "sc_wsline", "sc_tick", "sc_tq", "sc_nonbmp", "sc_long", "sc_cr", "sc_endsp", "sc_bs"}
 
 func (g *Gen) desc(n *int) string {
 	if g.R.Intn(2) == 0 {
